@@ -291,9 +291,11 @@ class Tr:
             for x in y:
                 self._leaves(x, out, shape)
         elif type(y) is dict:
-            shape["dict"] = True
+            n0 = len(out)
             for x in y.values():
                 self._leaves(x, out, shape)
+            if len(out) - n0 >= 2:
+                shape["dict"] = True       # the start order among the members of one dict is not claimed
         else:
             out.append(("bad", None))
 
@@ -332,6 +334,17 @@ class Tr:
         lv, shape = [], {}
         self._leaves(y, lv, shape)
         self.aux({"AuxYield": [list(_id), _k[0], [l[0] for l in lv], not shape.get("dict", False)]})
+        return self._freeze(y)
+
+    def _freeze(self, y):
+        """a copy of the containers of a yielded structure (the futures themselves are shared)"""
+        if type(y) is tuple:
+            return tuple(self._freeze(x) for x in y)
+        if type(y) is list:
+            return [self._freeze(x) for x in y]
+        if type(y) is dict:
+            return {k: self._freeze(x) for k, x in y.items()}
+        return y
 
     def _post(self, _id, k, y, got_val, got_exc):
         if y is None and k == 0:
